@@ -2004,7 +2004,7 @@ func TestVerifC18Internal(t *testing.T) {
 	defer c.r.Write()
 	c.r.Rule = "errors: codes 1..16 x messages {unset, \"\", ascii, each single byte 0..127, 14 multi-byte/%-strings} x all ordered lists of 0..2 (thorough 0..3) details from a pool of 8 (registered types, default and foreign URL prefix, one non-canonical encoding), each checked on 6 conversion paths against the specification it was built from; plus every alternative (valid, non-canonical) encoding - records reversed / rotated, unknown field in front / between / behind, non-minimal varints in tags, lengths, values, explicit default value, singular field twice, packed written unpacked - of 13 values of 11 registered types as the only detail, next to a canonical one and twice x 3 codes x 2 messages on the same paths (type URL and BYTES must come back); " +
 		"headers: all lists of ≤2 (thorough ≤3) entries over 7 names (3 case variants of two keys, one more key) x 7 value lists, through AddHeaders/AddTrailers and ConvertToProtoHeader, compared per lower-cased key; " +
-		"codecs: every message descriptor of connectrpc.conformance.v1 x {empty, each field alone with 3 values, each pair of fields, all-fields-set per value index and oneof choice; nesting ≤2; duplicates removed} x {proto, json} x {Marshal, MarshalAppend nil/prefix, MarshalStable} plus 12 top-level and 6 nested unknown-field variants per codec, plus decoding into a destination that is not fresh (pre-populated with every other single-field / all-fields-set instance of the type; one destination for sequences of three different messages; re-used after a rejected unknown-field input), compared after every decode; a case counts as non-trivial when it is a distinct error spec / non-empty header list / distinct message instance"
+		"codecs: every message descriptor of connectrpc.conformance.v1 x {empty, each field alone with 3 values, each pair of fields, all-fields-set per value index and oneof choice; nesting ≤2; duplicates removed} x {proto, json} x {Marshal, MarshalAppend nil/prefix, MarshalStable} plus 12 top-level and 6 nested unknown-field variants per codec, plus decoding into a destination that is not fresh (pre-populated with every other single-field / all-fields-set instance of the type; one destination for sequences of three different messages; re-used after a rejected unknown-field input), compared after every decode; string contents (ids codecstr/<hex first>/<hex second>): ordered pairs of strings over the JSON-significant alphabet {a, blank, backslash, double quote, tab, U+0001, é, : , { } [ ]} - quick: (all strings of length <=2 + 83 longer tails ending in backslashes / quotes / JSON-looking text) x (length <=1 + tails) in both orders plus length-3 strings x length<=1 strings in both orders; thorough: (all of length <=3 + tails) x (all of length <=2 + tails) in both orders plus length-4 strings x 4 strings in both orders - placed, first in front of second, in 7 message shapes (Header name/value, two values, two header entries, response definition with header + error message + expanded Any detail + trailers, error message + detail, two details, Struct key/value) x {json, proto} x {Marshal, MarshalAppend nil / empty / prefix without spare capacity / prefix in a re-used buffer / re-used buffer, MarshalStable} (full product for pairs of two short / tail strings, one rotating entry point per shape for the others): Unmarshal of the appended bytes must equal the specification, the prefix bytes must be untouched, Marshal output is also judged by the runtime's decoder; a case counts as non-trivial when it is a distinct error spec / non-empty header list / distinct message instance"
 	if c.replayID == "" || strings.HasPrefix(c.replayID, "err/") {
 		c.errorSection()
 	}
@@ -2013,6 +2013,9 @@ func TestVerifC18Internal(t *testing.T) {
 	}
 	if c.replayID == "" || strings.HasPrefix(c.replayID, "codec/") {
 		c.codecSection()
+	}
+	if c.replayID == "" || strings.HasPrefix(c.replayID, "codecstr/") {
+		c.stringSection() // c18_strings_test.go
 	}
 	if c.replayID != "" && !c.replayed {
 		t.Errorf("C18: replay case %q not found in the enumeration of tier %s", c.replayID, rep.Tier())
